@@ -71,6 +71,20 @@ pub enum FExpr {
     StaticFn { levels: u8, targets: u8 },
     /// `dynamic_filter_fn(|_, cx| cx.lookup_current().is_some())`
     HasCurrent,
+    /// `filter_fn` as StaticFn, with `with_max_level_hint(hint)`; the hint is a true upper bound
+    FnHint { levels: u8, targets: u8, hint: u8 },
+    /// `dynamic_filter_fn(|m, cx| level in mask && cx.lookup_current().is_some())` with a true
+    /// upper-bound hint
+    DynHint { levels: u8, hint: u8 },
+    /// EnvFilter built from raw directives (may contain span-scoped ones); no reference
+    /// semantics here (C11 has them), only usable where the oracle is implementation-relative
+    EnvRaw(String),
+    /// `Option<F>`: None allows everything
+    Opt(Option<Box<FExpr>>),
+    /// the filter behind a `reload::Subscriber`
+    Reload(Box<FExpr>),
+    /// `Arc<dyn Filter>`
+    Arc(Box<FExpr>),
     And(Box<FExpr>, Box<FExpr>),
     Or(Box<FExpr>, Box<FExpr>),
     Not(Box<FExpr>),
@@ -88,6 +102,11 @@ impl FExpr {
                 levels >> (level - 1) & 1 == 1 && targets >> ti & 1 == 1
             }
             FExpr::HasCurrent => has_current,
+            FExpr::FnHint { levels, targets, .. } => FExpr::StaticFn { levels: *levels, targets: *targets }.accepts(level, target, has_current),
+            FExpr::DynHint { levels, .. } => levels >> (level - 1) & 1 == 1 && has_current,
+            FExpr::EnvRaw(_) => panic!("EnvRaw has no reference semantics in vp-sub"),
+            FExpr::Opt(None) => true,
+            FExpr::Opt(Some(a)) | FExpr::Reload(a) | FExpr::Arc(a) => a.accepts(level, target, has_current),
             FExpr::And(a, b) => a.accepts(level, target, has_current) && b.accepts(level, target, has_current),
             FExpr::Or(a, b) => a.accepts(level, target, has_current) || b.accepts(level, target, has_current),
             FExpr::Not(a) => !a.accepts(level, target, has_current),
@@ -95,9 +114,9 @@ impl FExpr {
     }
     pub fn is_dynamic(&self) -> bool {
         match self {
-            FExpr::HasCurrent => true,
+            FExpr::HasCurrent | FExpr::DynHint { .. } | FExpr::EnvRaw(_) => true,
             FExpr::And(a, b) | FExpr::Or(a, b) => a.is_dynamic() || b.is_dynamic(),
-            FExpr::Not(a) => a.is_dynamic(),
+            FExpr::Not(a) | FExpr::Reload(a) | FExpr::Arc(a) | FExpr::Opt(Some(a)) => a.is_dynamic(),
             _ => false,
         }
     }
@@ -108,6 +127,22 @@ impl FExpr {
             FExpr::Env(_) => out.push("env"),
             FExpr::StaticFn { .. } => out.push("fn"),
             FExpr::HasCurrent => out.push("dynfn"),
+            FExpr::FnHint { .. } => out.push("fn_hint"),
+            FExpr::DynHint { .. } => out.push("dynfn_hint"),
+            FExpr::EnvRaw(_) => out.push("env_raw"),
+            FExpr::Opt(None) => out.push("opt_none"),
+            FExpr::Opt(Some(a)) => {
+                out.push("opt");
+                a.leaf_kinds(out)
+            }
+            FExpr::Reload(a) => {
+                out.push("reload");
+                a.leaf_kinds(out)
+            }
+            FExpr::Arc(a) => {
+                out.push("arc");
+                a.leaf_kinds(out)
+            }
             FExpr::And(a, b) | FExpr::Or(a, b) => {
                 a.leaf_kinds(out);
                 b.leaf_kinds(out)
@@ -136,6 +171,31 @@ pub fn build_filter(f: &FExpr) -> BF {
             }))
         }
         FExpr::HasCurrent => Box::new(dynamic_filter_fn(|_m: &Metadata<'_>, cx: &Context<'_, Registry>| cx.lookup_current().is_some())),
+        FExpr::FnHint { levels, targets, hint } => {
+            let (l, t) = (*levels, *targets);
+            Box::new(
+                filter_fn(move |m: &Metadata<'_>| {
+                    let ti = TARGETS.iter().position(|x| *x == m.target()).unwrap_or(7);
+                    l >> (vp_rec::rank(m.level()) - 1) & 1 == 1 && t >> ti & 1 == 1
+                })
+                .with_max_level_hint(vp_rec::filter_of_rank(*hint)),
+            )
+        }
+        FExpr::DynHint { levels, hint } => {
+            let l = *levels;
+            Box::new(
+                dynamic_filter_fn(move |m: &Metadata<'_>, cx: &Context<'_, Registry>| l >> (vp_rec::rank(m.level()) - 1) & 1 == 1 && cx.lookup_current().is_some())
+                    .with_max_level_hint(vp_rec::filter_of_rank(*hint)),
+            )
+        }
+        FExpr::EnvRaw(d) => Box::new(EnvFilter::new(d)),
+        FExpr::Opt(None) => Box::new(None::<BF>),
+        FExpr::Opt(Some(a)) => Box::new(Some(build_filter(a))),
+        FExpr::Reload(a) => Box::new(tracing_subscriber::reload::Subscriber::new(build_filter(a)).0),
+        FExpr::Arc(a) => {
+            let b: std::sync::Arc<dyn Filter<Registry> + Send + Sync> = std::sync::Arc::from(build_filter(a));
+            Box::new(b)
+        }
         FExpr::And(a, b) => Box::new(build_filter(a).and(build_filter(b))),
         FExpr::Or(a, b) => Box::new(build_filter(a).or(build_filter(b))),
         FExpr::Not(a) => Box::new(build_filter(a).not()),
@@ -220,12 +280,20 @@ pub enum Node {
     Vec(Vec<Node>),
     Opt(Option<Box<Node>>),
     Boxed(Box<Node>),
+    /// a global filter layer at this position (C08/C09 only)
+    Global(GFilter),
+    /// the subtree behind a `reload::Subscriber` (only over subtrees without Filtered nodes:
+    /// reloading Filtered layers is a documented limitation of the reload module)
+    Reload(Box<Node>),
+    /// `Identity` composed in front of the subtree
+    Identity(Box<Node>),
 }
 impl Node {
     pub fn leaves(&self) -> usize {
         match self {
             Node::Leaf => 1,
-            Node::Filtered(n, _) | Node::Boxed(n) => n.leaves(),
+            Node::Global(_) => 0,
+            Node::Filtered(n, _) | Node::Boxed(n) | Node::Reload(n) | Node::Identity(n) => n.leaves(),
             Node::Layered(a, b) => a.leaves() + b.leaves(),
             Node::Vec(v) => v.iter().map(|n| n.leaves()).sum(),
             Node::Opt(o) => o.as_ref().map(|n| n.leaves()).unwrap_or(0),
@@ -435,7 +503,8 @@ pub fn flatten(n: &Node) -> Flat {
                     go(x, path, f)
                 }
             }
-            Node::Boxed(x) => go(x, path, f),
+            Node::Boxed(x) | Node::Reload(x) | Node::Identity(x) => go(x, path, f),
+            Node::Global(_) => {}
         }
     }
     let mut f = Flat::default();
@@ -474,6 +543,27 @@ pub fn build_tree(n: &Node, logs: &mut Vec<LeafLog>, mk: &mut dyn FnMut(LeafLog,
         Node::Boxed(x) => {
             let inner = build_tree(x, logs, mk);
             Box::new(inner).boxed()
+        }
+        Node::Global(g) => g.build(),
+        Node::Reload(x) => {
+            let inner = build_tree(x, logs, mk);
+            tracing_subscriber::reload::Subscriber::new(inner).0.boxed()
+        }
+        Node::Identity(x) => {
+            let inner = build_tree(x, logs, mk);
+            tracing_subscriber::subscribe::Identity::new().and_then(inner).boxed()
+        }
+    }
+}
+impl Node {
+    pub fn has_filtered(&self) -> bool {
+        match self {
+            Node::Leaf | Node::Global(_) => false,
+            Node::Filtered(..) => true,
+            Node::Layered(a, b) => a.has_filtered() || b.has_filtered(),
+            Node::Vec(v) => v.iter().any(|n| n.has_filtered()),
+            Node::Opt(o) => o.as_ref().map(|n| n.has_filtered()).unwrap_or(false),
+            Node::Boxed(n) | Node::Reload(n) | Node::Identity(n) => n.has_filtered(),
         }
     }
 }
